@@ -43,6 +43,18 @@ CLAIMED["C28"] = ("Proof that fieldTag / protoTagForEntry return, whenever they 
     "termination is not proved. Not covered: distinctness of field numbers/names within a message (a 29-bit hash of sibling paths can collide and the "
     "generator has no collision handling - not provable, see DESIGN.md), enum numbering, proto3 syntax of the emitted files.", "5 (C28)", "")
 
+CLAIMED["C11"] = ("Proof of frame (modifies) contracts for the non-reflective functions on the read-only / encoding call paths: every store site is shown to "
+    "target an object allocated in the call or a location listed in `modifies`, and every callee's modifies clause to be covered. Covered: "
+    "gNMIToYANGTypeMatches w.r.t. the TypedValue given to SetNode/UnmarshalSetRequest, marshalStructOrOrderedList (EncodeTypedValue) w.r.t. the caller's "
+    "RFC7951JSONConfig, and the util path functions (ComparePaths, PathMatches*, JoinPaths, PopGNMIPath, ...) w.r.t. their path arguments. Not covered: "
+    "mutation through reflection inside GetNode, Validate, EmitJSON, TogNMINotifications, DeepCopy, MergeStructs, Unmarshal - the tree walkers are "
+    "opaque calls for this verifier and are assumed not to write through the listed arguments.", "5 (C11)", "")
+CLAIMED["C20"] = ("Proof that the own panic sites (index, slice bounds, nil dereference, nil-map write, unchecked type assertion, interface comparison of "
+    "uncomparable dynamic types, explicit panic) of the listed decoding entry functions are unreachable for every input: ytypes.unmarshalList (any JSON "
+    "value), gnmidiff writeUpdate / protoLeafToJSON / populateUpdateNoSchema (any TypedValue whose oneof wrapper is not a typed nil), ygot.StringToPath, "
+    "StringToStructuredPath, StringToStringSlicePath, extractKV, addKey and util.SplitPath / PathStringToElements (any string). Not covered: panics raised "
+    "inside reflect, protobuf and encoding/json calls and inside the reflection walkers (opaque calls), stack exhaustion.", "5 (C20)", "")
+
 NA = {
     "C01": "RFC7951 JSON round-trip is a relation between two reflection walkers (structJSON/jsonValue vs unmarshalStruct/unmarshalList) over arbitrary generated struct types; no function-level contract within this verifier's reach carries it (no reflect memory model). Scalar kernels are decided under C18/C19 where claimed.",
     "C02": "gNMI notification round-trip lives in the reflection walkers (findUpdatedLeaves, retrieveNode); not expressible as contracts the VC generator can check.",
@@ -64,13 +76,11 @@ PENDING = {
     "C05": "contracts not completed yet (uniqueSlices / orderedMapKeysMergeable kernels)",
     "C07": "contracts not completed yet (validateListAttr and dispatch kernels)",
     "C08": "contracts not completed yet (path string composition lemma + bounded element round trip)",
-    "C11": "contracts not completed yet (frame contracts)",
     "C13": "contracts not completed yet (Set orchestration over a ghost trace)",
     "C15": "contracts not completed yet (generated ordered maps)",
     "C16": "contracts not completed yet (key string encode/decode pairing)",
     "C17": "contracts not completed yet (enum lookup kernels)",
     "C19": "contracts not completed yet (scalar encoding kernels)",
-    "C20": "contracts not completed yet (safety contracts)",
     "C22": "contracts not completed yet (intent diff partition)",
     "C23": "contracts not completed yet (set-to-notifications classification)",
     "C24": "contracts not completed yet (protomap wrapper pairing)",
